@@ -6,11 +6,26 @@ the harness supplies their results as *fact* lines (`enc`, `enci`, `raw`, `cd`, 
 computed with the real libraries (and that the implementation side re-verifies). Everything that is not a
 registered fact fails, exactly as the real library does on the inputs of the case.
 Values are opaque ids (`vid`); strings travel as hex of their UTF-8 bytes.
+
+`cfg s c` assigns the two package variables (`Cfg`), as the executor does on the real package. Every successful
+dump (Dump / DumpIndent / DumpAndCompress / MimeDump / DumpToHTTPRequest / DumpToHTTPResponse) is also *held*
+(the last 16); `held` loads every held result again, after whatever was done in between. The model is a set of
+pure functions, so for the model a held result is just the value it was; the executor holds the very slice /
+body the package returned.
 -/
 namespace PB.Drv.C09
 open PB PB.Dsd PB.Gen.Dsd
 
+/-- A result kept for later: a dsd blob, or (mime type, data) of MimeDump / an HTTP request / response. -/
+inductive Held where
+  | blob (b : Bytes)
+  | mime (t : Str) (d : Bytes)
+
+def heldCap : Nat := 16
+
 structure St where
+  cfg : Cfg := Cfg.init
+  held : List Held := []   -- newest first
   encs : List (Lib × Bytes) := []
   encIs : List (Str × Bytes) := []
   raw : Option Bytes := none
@@ -73,9 +88,17 @@ def showLoad : Nat × Except Err String → String
   | (f, .ok v) => s!"{f} ok {v}"
   | (f, .error e) => s!"{f} err {e.str}"
 
+def St.hold (s : St) (h : Held) : St := { s with held := (h :: s.held).take heldCap }
+
 def showDump (s : St) : Except Err Bytes → St × String
-  | .ok b => ({ s with blob := b }, s!"ok {toHex b}")
+  | .ok b => ({ s with blob := b }.hold (.blob b), s!"ok {toHex b}")
   | .error e => (s, s!"err {e.str}")
+
+/-- Loading a held result now (current `cfg`, current facts). A pure function never changes a value it returned:
+    the flag is always `same`. -/
+def showHeld (s : St) : Held → String
+  | .blob b => "same " ++ showLoad (load s.cfg s.codec b)
+  | .mime t d => "same " ++ showLoad (mimeLoad s.cfg s.codec d t)
 
 def errStr : Option Err → String
   | none => "ok"
@@ -92,6 +115,12 @@ def step (s : St) (line : String) : St × String :=
   let bad := (s, "bad-op")
   match PB.Drv.words line with
   | ["val", _, _] => ({ s with encs := [], encIs := [], raw := none }, "ok")
+  | ["cfg", a, b] =>
+    match a.toNat?, b.toNat? with
+    | some a, some b => if a < 256 ∧ b < 256 then ({ s with cfg := { defSer := a, defComp := b } }, "ok") else bad
+    | _, _ => bad
+  | ["held"] =>
+    (s, if s.held.isEmpty then "none" else " | ".intercalate (s.held.reverse.map (showHeld s)))
   | ["enc", l, h] =>
     match parseLib l, parseHex h with
     | some l, some b => ({ s with encs := (l, b) :: s.encs }, "ok")
@@ -122,25 +151,25 @@ def step (s : St) (line : String) : St × String :=
     | none => bad
   | ["dump", f] =>
     match f.toNat? with
-    | some f => showDump s (dump s.codec "" f)
+    | some f => showDump s (dump s.cfg s.codec "" f)
     | none => bad
   | ["dumpi", f, i] =>
     match f.toNat?, parseStr i with
-    | some f, some i => showDump s (dumpIndent s.codec "" f i)
+    | some f, some i => showDump s (dumpIndent s.cfg s.codec "" f i)
     | _, _ => bad
   | ["dac", f, c] =>
     match f.toNat?, c.toNat? with
     | some f, some c =>
       -- never default silently: the gzip fact for the blob about to be compressed must have been supplied
-      match dump s.codec "" f with
+      match dump s.cfg s.codec "" f with
       | .ok b =>
-        if (validateCompressionFormat c).isSome ∧ (lookup b s.gzs).isNone then (s, "missing-fact gz " ++ toHex b)
-        else showDump s (dumpAndCompress s.codec "" f c)
-      | .error _ => showDump s (dumpAndCompress s.codec "" f c)
+        if (validateCompressionFormat s.cfg.defComp c).isSome ∧ (lookup b s.gzs).isNone then (s, "missing-fact gz " ++ toHex b)
+        else showDump s (dumpAndCompress s.cfg s.codec "" f c)
+      | .error _ => showDump s (dumpAndCompress s.cfg s.codec "" f c)
     | _, _ => bad
   | ["load", o] =>
     match operand s o with
-    | some b => (s, showLoad (load s.codec b))
+    | some b => (s, showLoad (load s.cfg s.codec b))
     | none => bad
   | ["laf", f, o] =>
     match f.toNat?, operand s o with
@@ -151,43 +180,51 @@ def step (s : St) (line : String) : St × String :=
     | _, _ => bad
   | ["dal", c, o] =>
     match c.toNat?, operand s o with
-    | some c, some b => (s, showLoad (decompressAndLoad s.codec b c))
+    | some c, some b => (s, showLoad (decompressAndLoad s.cfg s.codec b c))
     | _, _ => bad
   | ["ffa", a] =>
     match parseStr a with
-    | some a => (s, toString (formatFromAccept a))
+    | some a => (s, toString (formatFromAccept s.cfg.defSer a))
     | none => bad
   | ["mimedump", a] =>
     match parseStr a with
     | some a =>
-      match mimeDump s.codec "" a with
-      | .ok (d, m, f) => ({ s with mdata := d, mtype := m }, s!"ok {f} {hexStr m} {toHex d}")
+      match mimeDump s.cfg s.codec "" a with
+      | .ok (d, m, f) => ({ s with mdata := d, mtype := m }.hold (.mime m d), s!"ok {f} {hexStr m} {toHex d}")
       | .error e => (s, s!"err {e.str}")
     | none => bad
   | ["mimeload", a, o] =>
     match strOperand s a, operand s o with
-    | some a, some b => (s, showLoad (mimeLoad s.codec b a))
+    | some a, some b => (s, showLoad (mimeLoad s.cfg s.codec b a))
     | _, _ => bad
   | ["newreq"] => ({ s with req := {} }, "ok")
   | ["req", f] =>
     match f.toNat? with
     | some f =>
-      let (r, e) := dumpToHTTPRequest s.codec s.req "" f
-      ({ s with req := r }, s!"{errStr e} a={optStr r.accept} ct={optStr r.contentType} body={optBytes r.body}")
+      let (r, e) := dumpToHTTPRequest s.cfg s.codec s.req "" f
+      let s' := { s with req := r }
+      let s' := match e, r.contentType, r.body with
+        | none, some t, some d => s'.hold (.mime t d)
+        | _, _, _ => s'
+      (s', s!"{errStr e} a={optStr r.accept} ct={optStr r.contentType} body={optBytes r.body}")
     | none => bad
   | ["setreq", a, ct, b] =>
     match optStrOperand a, optStrOperand ct, optBytesOperand b with
     | some a, some ct, some b => ({ s with req := { accept := a, contentType := ct, body := b } }, "ok")
     | _, _, _ => bad
-  | ["loadreq"] => (s, showLoad (loadFromHTTPRequest s.codec s.req))
+  | ["loadreq"] => (s, showLoad (loadFromHTTPRequest s.cfg s.codec s.req))
   | ["resp"] =>
-    let (w, e) := dumpToHTTPResponse s.codec {} s.req ""
-    ({ s with resp := w }, s!"{errStr e} ct={optStr w.contentType} body={toHex w.body}")
+    let (w, e) := dumpToHTTPResponse s.cfg s.codec {} s.req ""
+    let s' := { s with resp := w }
+    let s' := match e, w.contentType with
+      | none, some t => s'.hold (.mime t w.body)
+      | _, _ => s'
+    (s', s!"{errStr e} ct={optStr w.contentType} body={toHex w.body}")
   | ["setresp", ct, b] =>
     match optStrOperand ct, parseHex b with
     | some ct, some b => ({ s with resp := { contentType := ct, body := b } }, "ok")
     | _, _ => bad
-  | ["loadresp"] => (s, showLoad (loadFromHTTPResponse s.codec s.resp))
+  | ["loadresp"] => (s, showLoad (loadFromHTTPResponse s.cfg s.codec s.resp))
   | ["lowerscan"] => (s, listNat lowerScan)
   | ["spacescan"] => (s, listNat spaceScan)
   | _ => bad
